@@ -59,7 +59,8 @@ def run(ctx):
     op = os.path.join(wd, "results.json")
     # the extension matrix (every signer x next-owner key class) is cheap: always for all six key kinds
     ext = ["P256/1", "P384/1", "RSA2048RESTR/1", "RSAPKCS3072/1", "RSAPSS2048/1", "RSAPSS3072/1"]
-    ctx.run_vh(["voucher-replay", "-in", bp, "-out", op, "-cfgs", ",".join(cfgs), "-extcfgs", ",".join(ext), "-sweep", step, "-seed", ctx.seed], timeout=3300)
+    ctx.run_vh(["voucher-replay", "-in", bp, "-out", op, "-cfgs", ",".join(cfgs), "-extcfgs", ",".join(ext), "-sweep", step, "-seed", ctx.seed,
+                "-full", 3 if quick else 2], timeout=3300)
     res = json.load(open(op))
     for r in res["results"] or []:
         b = uniq[r["idx"]]
